@@ -264,6 +264,8 @@ class LoopMixin:
         f = self.fn_stack[-1]
         k = self.loop_ordinal(f.node, getattr(node, 'pyvc_from_while', node))
         spec = self.loop_specs.get((f.module.name, f.qualname, k))
+        outer_flag = getattr(self, 'loop_heuristic', False)
+        self.loop_heuristic = spec is None
         if spec is None:
             # a loop moved into a helper of the same module keeps its invariant if it iterates the same expression
             src = ast.unparse(node.iter)
@@ -281,20 +283,47 @@ class LoopMixin:
                 if m_ != f.module.name:
                     continue
                 params = [a.arg for a in sp.fn.node.args.args if a.arg not in reserved]
-                if all(env.has(p_) for p_ in params):
+                if all(env.has(p_) or self.alias_for(p_, env) is not None for p_ in params):
                     cands.append(sp)
             bodies = {ast.dump(ast.Module(body=c.fn.node.body, type_ignores=[])) + c.kind for c in cands}
             if cands and len(bodies) == 1:
                 spec = cands[0]
         if spec is None:
             raise Unsupported(f'loop {k} of {f.qualname} iterates a symbolic sequence and has no invariant')
+        self.bind_invariant_aliases(spec, env)
         if node.orelse:
             raise Unsupported('for-else with invariant')
-        if spec.kind == 'foreach':
-            return self.loop_foreach(node, it, env, spec, f)
-        if spec.kind == 'indexed':
-            return self.loop_indexed(node, it, env, spec, f)
-        raise Unsupported(f'loop kind {spec.kind}')
+        try:
+            if spec.kind == 'foreach':
+                return self.loop_foreach(node, it, env, spec, f)
+            if spec.kind == 'indexed':
+                return self.loop_indexed(node, it, env, spec, f)
+            raise Unsupported(f'loop kind {spec.kind}')
+        finally:
+            # (an inner loop sets the flag for itself; give the enclosing loop its own value back)
+            self.loop_heuristic = outer_flag
+
+    # ------------------------------------------------------------------ invariant parameters under other names
+    def alias_for(self, name, env):
+        """the one local whose name shares a word with `name` (observation_grid ~ grid), or None"""
+        words = set(name.split('_'))
+        hits = [n for n in env.vars if not n.startswith('__') and words & set(n.split('_'))]
+        return hits[0] if len(hits) == 1 else None
+
+    def bind_invariant_aliases(self, spec, env):
+        """a loop moved into a helper may see the same things under other parameter names: an invariant parameter
+        (or modifies name) that is not a local is bound to the one local sharing a word with it; the invariant is
+        proved for the loop as always"""
+        reserved = {'done', 'pre', 'k', 'n', 'item', 'before'}
+        names = [a.arg for a in spec.fn.node.args.args if a.arg not in reserved] + list(spec.modifies)
+        for fn in (spec.opts.get('step') or {}).values():
+            names += [a.arg for a in fn.node.args.args if a.arg not in reserved]
+        for nm in names:
+            if not env.has(nm):
+                al = self.alias_for(nm, env)
+                if al is not None:
+                    env.vars[nm] = env.vars[al]
+                    self.loop_heuristic = True
 
     # ------------------------------------------------------------------ havoc
     def havoc_value(self, v, hint):
@@ -416,6 +445,12 @@ class LoopMixin:
     def loop_prove(self, name, goal):
         if self.prove_hook is None:
             raise Unsupported('loop invariant outside a verification run')
+        if getattr(self, 'loop_heuristic', False):
+            # the invariant was associated with this loop by a heuristic (same iterable, same module, parameters
+            # under other names): it counts only if it proves; a failure says the guess was wrong, not the code
+            probe = getattr(self, 'prove_probe', None)
+            if probe is not None and probe(goal) != 'unsat':
+                raise Unsupported('an invariant matched heuristically to this loop does not hold for it: ' + name)
         self.prove_hook(name, goal)
 
     def run_body_checked(self, node, env, spec, allowed):
